@@ -159,7 +159,11 @@ def _run_unit(unit, repo, rlimit, seed, threads, wd, out_path, t0):
         return res
     res['lost_hints'] = ['%s %s' % x for x in lost]
     lost_fns = set(w.split('::')[-1] for w, _ in lost)
-    res['extracts'] = meta['extracts']
+    res['extracts'] = [e for e in meta['extracts'] if not e.get('dropped')]
+    for e in meta['extracts']:
+        if e.get('dropped'):
+            res['undecided'].append({'reason': 'region-lost', 'detail': 'the statements lifted as `%s` could not be found in the changed function (%s)' % (e['label'], e['dropped'][:160]), 'function': e['label']})
+    meta['extracts'] = res['extracts']
     res['trusted'] = meta['trusted']
     res['unit_rules'] = meta['unit_rules']
     cmd = ['verus', out_path] + VERUS_FLAGS
